@@ -11,7 +11,7 @@ use crate::{
     serializer::{inspect_value, serialize_value},
     unit::Unit,
     utils::is_special_function,
-    Options, OutputStyle,
+    Options,
 };
 
 pub use arglist::ArgList;
@@ -227,16 +227,12 @@ impl Value {
         }
     }
 
-    pub fn to_css_string(&self, span: Span, is_compressed: bool) -> SassResult<String> {
-        serialize_value(
-            self,
-            &Options::default().style(if is_compressed {
-                OutputStyle::Compressed
-            } else {
-                OutputStyle::Expanded
-            }),
-            span,
-        )
+    /// The text of this value as seen by SassScript (interpolation, string
+    /// concatenation, `@warn`, ...). Like in dart-sass this never depends on the
+    /// output style: only the final serializer spells values differently in
+    /// compressed mode.
+    pub fn to_css_string(&self, span: Span, _is_compressed: bool) -> SassResult<String> {
+        serialize_value(self, &Options::default(), span)
     }
 
     pub fn inspect(&self, span: Span) -> SassResult<String> {
